@@ -818,3 +818,50 @@ mut("c03-stream-parse-early-out", "C03", ST,
         }
 """,
     "R3.8/stream-parse/always-processes", "buffered records stay unparsed")
+
+# ---- C16 -------------------------------------------------------------------------------------------------
+NV = "src/protocol/nv.rs"
+mut("c16-advance-before-length-check", "C16", NV,
+    """        if self.data.len() >= total_len {
+            // Should never panic due to check above
+            let nv = replace_with::replace_with_or_default_and_return(
+                &mut self.data, |b| b.split_at(total_len),
+            );
+            Some(nv.advance_by(head_len).split_at(name_len))
+        } else {
+            None
+        }""",
+    """        if self.data.len() >= total_len {
+            // Should never panic due to check above
+            let nv = replace_with::replace_with_or_default_and_return(
+                &mut self.data, |b| b.split_at(total_len),
+            );
+            Some(nv.advance_by(head_len).split_at(name_len))
+        } else {
+            self.data = T::default();
+            None
+        }""",
+    "R16.1/next", "an incomplete pair empties the iterator: the suffix is lost")
+mut("c16-drop-length-guard", "C16", NV,
+    """        if self.data.len() >= total_len {""",
+    """        if self.data.len() >= head_len {""",
+    "R16.2/next", "split beyond the available bytes (panic on truncated input)")
+mut("c16-plain-add", "C16", NV,
+    """        let total_len = head_len.checked_add(name_len)?.checked_add(val_len)?;""",
+    """        let val_len: usize = val_len;
+        let total_len = head_len.checked_add(name_len)? + val_len;""",
+    "R16.2/next", "overflow on hostile lengths")
+mut("c16-count-without-value", "C16", NV,
+    """    Ok(written + name.len() + value.len())""",
+    """    Ok(written + name.len())""",
+    "R16.4/write", "reported count misses the value")
+mut("c16-value-before-name", "C16", NV,
+    """    w.write_all(name)?;
+    w.write_all(value)?;""",
+    """    w.write_all(value)?;
+    w.write_all(name)?;""",
+    "R16.4/write", "value written before the name")
+mut("c16-size-hint-too-small", "C16", NV,
+    """        (0, Some(self.data.len() / 2))""",
+    """        (0, Some(self.data.len() / 4))""",
+    "R16.5/size_hint", "more pairs than the upper bound")
